@@ -384,7 +384,7 @@ package h2
 //@ func (*relay).encodeFull
 //@   serves C08
 //@   requires r != nil && !r.encoderMu.held && r.encoder != nil && r.enableDebugLogs != nil
-//@   modifies r.encoderMu.held
+//@   modifies r.encoderMu.held, r.reencoded.blen, r.reencoded.bparts, r.reencoded.bview
 //@   ensures[lock-released] !r.encoderMu.held
 
 //@ pred encReady(r *relay) = !r.encoderMu.held && r.encoder != nil && r.enableDebugLogs != nil
@@ -394,7 +394,7 @@ package h2
 //@   requires relayReady(r) && encReady(r) && frameSizeOK(r)
 //@   at call 0 of enqueueFrame before assert[header-frame-within-max-frame-size] len(chunks) >= 1 && len(chunks[0]) + ite(priority.IsZero(), 0, 5) <= maxPayloadLength
 //@   at call 0 of enqueueFrame before assert[continuations-within-max-frame-size] forall k int :: 1 <= k && k < len(chunks) ==> 1 <= len(chunks[k]) && len(chunks[k]) <= maxPayloadLength
-//@   modifies r.connectionWindowSize, sentConn, outputBuffer.windowSize, outputBuffer.sentS, list.List.gfront, list.List.glen, list.Element.gnext, r.outputBuffers[*], r.flowMu.held, r.encoderMu.held, rlN, rlKind, rlSelf, rlID, rlHeaders, rlEnd, rlPrio
+//@   modifies r.connectionWindowSize, sentConn, outputBuffer.windowSize, outputBuffer.sentS, list.List.gfront, list.List.glen, list.Element.gnext, r.outputBuffers[*], r.flowMu.held, r.encoderMu.held, r.reencoded.blen, r.reencoded.bparts, r.reencoded.bview, rlN, rlKind, rlSelf, rlID, rlHeaders, rlEnd, rlPrio
 //@   ensures[records-call] rlN == old(rlN) + 1 && rlKind == 2 && rlSelf == r && rlID == id && rlHeaders == headers && rlEnd == streamEnded && rlPrio == priority
 //@   ensures[lock-released] !r.flowMu.held && !r.encoderMu.held
 //@   at entry 0 before set rlN = rlN + 1
@@ -410,7 +410,7 @@ package h2
 //@   requires relayReady(r) && encReady(r) && frameSizeOK(r)
 //@   at call 0 of enqueueFrame before assert[push-promise-frame-within-max-frame-size] len(chunks) >= 1 && len(chunks[0]) + 4 <= maxPayloadLength
 //@   at call 0 of enqueueFrame before assert[continuations-within-max-frame-size] forall k int :: 1 <= k && k < len(chunks) ==> 1 <= len(chunks[k]) && len(chunks[k]) <= maxPayloadLength
-//@   modifies r.connectionWindowSize, sentConn, outputBuffer.windowSize, outputBuffer.sentS, list.List.gfront, list.List.glen, list.Element.gnext, r.outputBuffers[*], r.flowMu.held, r.encoderMu.held, rlN, rlKind, rlSelf, rlID, rlHeaders, rlPromise
+//@   modifies r.connectionWindowSize, sentConn, outputBuffer.windowSize, outputBuffer.sentS, list.List.gfront, list.List.glen, list.Element.gnext, r.outputBuffers[*], r.flowMu.held, r.encoderMu.held, r.reencoded.blen, r.reencoded.bparts, r.reencoded.bview, rlN, rlKind, rlSelf, rlID, rlHeaders, rlPromise
 //@   ensures[records-call] rlN == old(rlN) + 1 && rlKind == 5 && rlSelf == r && rlID == id && rlHeaders == headers && rlPromise == promiseID
 //@   ensures[lock-released] !r.flowMu.held && !r.encoderMu.held
 //@   at entry 0 before set rlN = rlN + 1
